@@ -130,11 +130,16 @@ def gen_world(rng, cell_kind="ortho", in_fmt="lmpdat", pat_fmt="cml", out_fmt="l
     els, pos8, bonds = rng.choice(TEMPLATES)
     P = [tuple(Fraction(c, 8) for c in p) for p in pos8]
     lens = rng.sample([Fraction(k, 2) for k in range(16, 23)], 3)          # 8.0 … 11.0, distinct
+    t = lambda: Fraction(rng.randint(6, 20), 8) * rng.choice([1, -1])
     if cell_kind == "ortho":
         cell = [[lens[0], 0, 0], [0, lens[1], 0], [0, 0, lens[2]]]
-    else:
-        t = lambda: Fraction(rng.randint(2, 12), 8) * rng.choice([1, -1])
-        cell = [[lens[0], 0, 0], [t(), lens[1], 0], [t(), t(), lens[2]]]
+    elif cell_kind == "mono":                                       # alpha = gamma = 90, beta != 90
+        cell = [[lens[0], 0, 0], [0, lens[1], 0], [t(), 0, lens[2]]]
+    else:                                                            # general triclinic: three different angles
+        t1, t2, t3 = t(), t(), t()
+        while abs(t2) == abs(t3):
+            t3 = t()
+        cell = [[lens[0], 0, 0], [t1, lens[1], 0], [t2, t3, lens[2]]]
     # eight well separated sites (fractional centres 1/4, 3/4)
     sites = [(i, j, k) for i in (1, 3) for j in (1, 3) for k in (1, 3)]
     rng.shuffle(sites)
@@ -159,6 +164,8 @@ def gen_world(rng, cell_kind="ortho", in_fmt="lmpdat", pat_fmt="cml", out_fmt="l
     if perturbed if perturbed is not None else rng.random() < 0.6:
         atoms += place(sites[ncopies], shift=Fraction(9, 128))               # 0.0703 A: inside atol 0.1, outside 0.05
         ncopies += 1
+    # bonds of the structure itself: those of the pattern, inside every planted copy (used when `with_bonds` is set)
+    sbonds = [[k * len(P) + a, k * len(P) + b] for k in range(ncopies) for (a, b) in bonds]
     for s in sites[ncopies:ncopies + rng.randint(1, 2)]:
         f = [Fraction(v, 4) for v in s]
         centre = [sum(f[r] * Fraction(cell[r][c]) for r in range(3)) for c in range(3)]
@@ -194,6 +201,10 @@ def gen_world(rng, cell_kind="ortho", in_fmt="lmpdat", pat_fmt="cml", out_fmt="l
         "pattern": [{"el": e, "pos": [q(v) for v in mv(p)]} for e, p in zip(els, P)], "pattern_bonds": [list(b) for b in bonds],
         "repl": [{"el": e, "pos": [q(v) for v in mv(p)]} for e, p in R], "repl_bonds": [list(b) for b in rbonds],
         "chargefile": [q(Fraction(rng.randint(-16, 16), 32)) for _ in range(n)],
+        "bonds": sbonds,
+        # with_bonds: the input file carries `bonds` (lmpdat / cif inputs); split_types: a LAMMPS input that types the
+        # atoms of one element in two ways (labels X_a / X_b) — both matter for what a CIF writer has to get right
+        "with_bonds": False, "split_types": False,
     }
 
 
@@ -209,7 +220,7 @@ def write_cml(path, rows, bonds):
         f.write(" </bondArray>\n</molecule>\n")
 
 
-def write_cif(path, rows, cell):
+def write_cif(path, rows, cell, bonds=()):
     import numpy as np
     c = np.array([[fl(v) for v in row] for row in cell])
     a, b, cc = [float(np.linalg.norm(c[i])) for i in range(3)]
@@ -225,6 +236,10 @@ def write_cif(path, rows, cell):
         for i, r in enumerate(rows):
             fx = np.array([fl(v) for v in r["pos"]]).dot(inv)
             f.write("%s%d %s %.8f %.8f %.8f %.6f\n" % (r["el"], i + 1, r["el"], fx[0], fx[1], fx[2], fl(r.get("q", "0"))))
+        if bonds:
+            f.write("loop_\n_geom_bond_atom_site_label_1\n_geom_bond_atom_site_label_2\n")
+            for a, b in bonds:
+                f.write("%s%d %s%d\n" % (rows[a]["el"], a + 1, rows[b]["el"], b + 1))
 
 
 def write_lmpdat(path, rows, cell, bonds=(), charges=True):
@@ -240,6 +255,43 @@ def write_lmpdat(path, rows, cell, bonds=(), charges=True):
         kw["bond_types"] = [0] * len(bonds)
     with core.quiet():
         Atoms(**kw).save(path)
+
+
+def write_lmpdat_typed(path, rows, cell, bonds):
+    """a LAMMPS data file (atom style full) written by hand in which the atoms of the most frequent element alternate
+    between two atom types labelled X_a / X_b (orthorhombic or lower-triangular cell)"""
+    from ase.data import atomic_masses, atomic_numbers
+    els = [r["el"] for r in rows]
+    split = max(sorted(set(els)), key=els.count)
+    types, tyof, seen = [], [], 0
+    for e in els:
+        if e == split:
+            lab = "%s_%s" % (e, "ab"[seen % 2])
+            seen += 1
+        else:
+            lab = e
+        if (e, lab) not in types:
+            types.append((e, lab))
+        tyof.append(types.index((e, lab)))
+    c = [[fl(v) for v in row] for row in cell]
+    with open(path, "w") as f:
+        f.write("typed input (written by the C20 harness)\n\n%d atoms\n%d bonds\n\n%d atom types\n" % (len(rows), len(bonds), len(types)))
+        if bonds:
+            f.write("1 bond types\n")
+        f.write("\n0.0 %.8f xlo xhi\n0.0 %.8f ylo yhi\n0.0 %.8f zlo zhi\n" % (c[0][0], c[1][1], c[2][2]))
+        if c[1][0] or c[2][0] or c[2][1]:
+            f.write("%.8f %.8f %.8f xy xz yz\n" % (c[1][0], c[2][0], c[2][1]))
+        f.write("\nMasses\n\n")
+        for i, (e, lab) in enumerate(types):
+            f.write("%d %.6f # %s\n" % (i + 1, atomic_masses[atomic_numbers[e]], lab))
+        f.write("\nAtoms\n\n")
+        for i, r in enumerate(rows):
+            x, y, z = [fl(v) for v in r["pos"]]
+            f.write("%d 1 %d %.6f %.8f %.8f %.8f\n" % (i + 1, tyof[i] + 1, fl(r.get("q", "0")), x, y, z))
+        if bonds:
+            f.write("\nBonds\n\n")
+            for i, (a, b) in enumerate(bonds):
+                f.write("%d 1 %d %d\n" % (i + 1, a + 1, b + 1))
 
 
 def write_xyz(path, rows):
@@ -267,10 +319,14 @@ def materialise(world, T):
         return
     rows, cell = world["atoms"], world["cell"]
     fmt = world["in_fmt"]
+    sb = world.get("bonds", []) if world.get("with_bonds") else []
     if fmt == "lmpdat":
-        write_lmpdat(os.path.join(T, "in.lmpdat"), rows, cell)
+        if world.get("split_types"):
+            write_lmpdat_typed(os.path.join(T, "in.lmpdat"), rows, cell, sb)
+        else:
+            write_lmpdat(os.path.join(T, "in.lmpdat"), rows, cell, sb)
     elif fmt == "cif":
-        write_cif(os.path.join(T, "in.cif"), rows, cell)
+        write_cif(os.path.join(T, "in.cif"), rows, cell, sb)
     elif fmt == "cml":
         write_cml(os.path.join(T, "in.cml"), rows, [])
     elif fmt == "xyz":
@@ -1007,13 +1063,238 @@ def api_pipeline(o, T, seed, out_path):
             atoms = replace_pattern_in_structure(atoms, sp, rp, atol=atol, replace_fraction=frac, **hints)
         else:
             matches = find_pattern_in_structure(atoms, sp, atol=atol, **hints)
+    mem = core.canon_atoms(atoms)            # the structure the API route holds, before any writer touches it
     if suffix(out_path) in NATIVE_OUT:
         atoms.save(out_path)
     else:
         a = atoms.to_ase()
         a.set_pbc(True)
         a.write(out_path)
-    return matches
+    return matches, mem
+
+
+# ---------------------------------------------------------------------- independent readers of the written files
+
+def _cif_tokens(text):
+    toks, i, n = [], 0, len(text)
+    lines = text.split("\n")
+    out = []
+    k = 0
+    while k < len(lines):
+        ln = lines[k]
+        if ln.startswith(";"):                       # semicolon text field
+            buf = [ln[1:]]
+            k += 1
+            while k < len(lines) and not lines[k].startswith(";"):
+                buf.append(lines[k])
+                k += 1
+            out.append(("v", "\n".join(buf)))
+            k += 1
+            continue
+        j = 0
+        while j < len(ln):
+            ch = ln[j]
+            if ch.isspace():
+                j += 1
+            elif ch == "#":
+                break
+            elif ch in "'\"":
+                e = j + 1
+                while e < len(ln) and not (ln[e] == ch and (e + 1 == len(ln) or ln[e + 1].isspace())):
+                    e += 1
+                out.append(("v", ln[j + 1:e]))
+                j = e + 1
+            else:
+                e = j
+                while e < len(ln) and not ln[e].isspace():
+                    e += 1
+                w = ln[j:e]
+                out.append(("t" if w.startswith("_") else "k" if w.lower() == "loop_" or w.lower().startswith("data_") else "v", w))
+                j = e
+        k += 1
+    return out
+
+
+def read_cif_plain(path):
+    """a minimal CIF reader written for this check (no PyCifRW, no mofun): items and loops of the first data block"""
+    toks = _cif_tokens(open(path).read())
+    items, loops = {}, []
+    i = 0
+    while i < len(toks):
+        kind, w = toks[i]
+        if kind == "k" and w.lower() == "loop_":
+            i += 1
+            tags = []
+            while i < len(toks) and toks[i][0] == "t":
+                tags.append(toks[i][1].lower())
+                i += 1
+            vals = []
+            while i < len(toks) and toks[i][0] == "v":
+                vals.append(toks[i][1])
+                i += 1
+            if tags and len(vals) % len(tags) == 0:
+                rows = [vals[r:r + len(tags)] for r in range(0, len(vals), len(tags))]
+                loops.append({t: [row[c] for row in rows] for c, t in enumerate(tags)})
+            else:
+                raise ValueError("loop with %d tags and %d values" % (len(tags), len(vals)))
+        elif kind == "t":
+            if i + 1 < len(toks) and toks[i + 1][0] == "v":
+                items[w.lower()] = toks[i + 1][1]
+                i += 2
+            else:
+                i += 1
+        else:
+            i += 1
+    return items, loops
+
+
+def _num(s):
+    return float(re.sub(r"\(\d+\)$", "", s))
+
+
+def structure_from_cif(path):
+    import numpy as np
+    items, loops = read_cif_plain(path)
+    site = next(l for l in loops if "_atom_site_label" in l)
+    out = {"labels": site["_atom_site_label"], "elems": site.get("_atom_site_type_symbol"), "cell": None}
+    if "_cell_length_a" in items:
+        a, b, c = [_num(items["_cell_length_" + k]) for k in "abc"]
+        al, be, ga = [np.radians(_num(items["_cell_angle_" + k])) for k in ("alpha", "beta", "gamma")]
+        # standard orientation: a along x, b in the xy plane
+        bx, by = b * np.cos(ga), b * np.sin(ga)
+        cx = c * np.cos(be)
+        cy = c * (np.cos(al) - np.cos(be) * np.cos(ga)) / np.sin(ga)
+        cz = np.sqrt(max(c * c - cx * cx - cy * cy, 0.0))
+        out["cell"] = np.array([[a, 0, 0], [bx, by, 0], [cx, cy, cz]])
+    if "_atom_site_fract_x" in site:
+        out["frac"] = np.array([[_num(v) for v in site["_atom_site_fract_" + k]] for k in "xyz"]).T
+    else:
+        out["cart"] = np.array([[_num(v) for v in site["_atom_site_cartn_" + k]] for k in "xyz"]).T
+    out["charges"] = [_num(v) for v in site["_atom_site_charge"]] if "_atom_site_charge" in site else None
+    out["terms"] = {}
+    for kind, n in (("bond", 2), ("angle", 3), ("torsion", 4)):
+        for l in loops:
+            key = "_geom_%s_atom_site_label_1" % kind
+            if key in l:
+                out["terms"][kind] = list(zip(*[l["_geom_%s_atom_site_label_%d" % (kind, k + 1)] for k in range(n)]))
+    return out
+
+
+def structure_from_lmpdat(path):
+    import numpy as np
+    from ase.data import atomic_masses, chemical_symbols
+    lines = [l.split("#")[0].strip() for l in open(path).read().split("\n")]
+    box = {}
+    sec, data = None, {"Masses": [], "Atoms": [], "Bonds": []}
+    for ln in lines[1:]:
+        if not ln:
+            continue
+        w = ln.split()
+        if ln in ("Masses", "Atoms", "Bonds", "Angles", "Dihedrals", "Impropers", "Pair Coeffs", "Bond Coeffs", "Angle Coeffs",
+                  "Dihedral Coeffs", "Improper Coeffs") or ln.startswith("Atoms"):
+            sec = ln.split()[0] if ln.split()[0] in data else "other"
+            continue
+        if sec is None:
+            if ln.endswith("xlo xhi"):
+                box["x"] = (float(w[0]), float(w[1]))
+            elif ln.endswith("ylo yhi"):
+                box["y"] = (float(w[0]), float(w[1]))
+            elif ln.endswith("zlo zhi"):
+                box["z"] = (float(w[0]), float(w[1]))
+            elif ln.endswith("xy xz yz"):
+                box["tilt"] = (float(w[0]), float(w[1]), float(w[2]))
+        elif sec in data:
+            data[sec].append(w)
+    masses = {int(w[0]): float(w[1]) for w in data["Masses"]}
+
+    def elem(m):
+        z = min(range(1, len(atomic_masses)), key=lambda k: abs(atomic_masses[k] - m))
+        return chemical_symbols[z] if abs(atomic_masses[z] - m) < 0.1 else "?"
+    rows = sorted(data["Atoms"], key=lambda w: int(w[0]))
+    out = {"elems": [elem(masses[int(w[2])]) for w in rows], "charges": [float(w[3]) for w in rows],
+           "cart": np.array([[float(w[4]), float(w[5]), float(w[6])] for w in rows]).reshape(-1, 3), "cell": None,
+           "ids": [int(w[0]) for w in rows]}
+    if "x" in box:
+        xy, xz, yz = box.get("tilt", (0.0, 0.0, 0.0))
+        out["cell"] = np.array([[box["x"][1] - box["x"][0], 0, 0], [xy, box["y"][1] - box["y"][0], 0],
+                                [xz, yz, box["z"][1] - box["z"][0]]])
+        out["origin"] = np.array([box["x"][0], box["y"][0], box["z"][0]])
+    pos_of = {i: k for k, i in enumerate(out["ids"])}
+    out["terms"] = {"bond": [(pos_of[int(w[2])], pos_of[int(w[3])]) for w in data["Bonds"]]}
+    return out
+
+
+def oracle_written(path, mem):
+    """the property itself: the file the command line wrote, read back by a reader that shares nothing with mofun's
+    writers, describes the structure the API route holds in memory — elements, charges, lattice (lengths and angles:
+    the formats fix the orientation), positions (fractional; modulo 1 for CIF), bonds by atom.  None or text."""
+    import numpy as np
+    sfx = suffix(path)
+    if sfx not in (".cif", ".lmpdat"):
+        return None
+    try:
+        got = structure_from_cif(path) if sfx == ".cif" else structure_from_lmpdat(path)
+    except Exception as e:
+        return "the written %s file cannot be read back by an independent reader: %r" % (sfx, e)
+    els = [mem["types"]["elem"][r["ty"]] for r in mem["atoms"]]
+    if got["elems"] is None or list(got["elems"]) != els:
+        return "elements in the file %s differ from the structure's %s" % (list(got["elems"] or [])[:12], els[:12])
+    pos = np.array([[fl(v) for v in r["pos"]] for r in mem["atoms"]]).reshape(-1, 3)
+    ptol = 2e-4 if sfx == ".cif" else 2e-6
+    if mem["cell"] is not None:
+        c = np.array([[fl(v) for v in row] for row in mem["cell"]])
+        if got["cell"] is None:
+            return "the structure has a unit cell, the file has none"
+        G, Gf = c.dot(c.T), got["cell"].dot(got["cell"].T)
+        if np.abs(G - Gf).max() > 1e-3 * max(1.0, np.abs(G).max()) * (1.0 if sfx == ".cif" else 1e-2):
+            ang = lambda M: [float(np.degrees(np.arccos(M[i][j] / np.sqrt(M[i][i] * M[j][j])))) for i, j in ((1, 2), (0, 2), (0, 1))]
+            return ("the lattice in the file (lengths %s, alpha/beta/gamma %s) is not the structure's (lengths %s, angles %s)"
+                    % ([round(float(np.sqrt(Gf[i][i])), 5) for i in range(3)], [round(a, 3) for a in ang(Gf)],
+                       [round(float(np.sqrt(G[i][i])), 5) for i in range(3)], [round(a, 3) for a in ang(G)]))
+        fm = pos.dot(np.linalg.inv(c))
+        if "frac" in got:
+            ff = got["frac"]
+        else:
+            ff = (got["cart"] - got.get("origin", 0.0)).dot(np.linalg.inv(got["cell"]))
+        d = fm - ff
+        if sfx == ".cif":
+            d = d - np.round(d)
+        if len(d) and np.abs(d).max() > ptol:
+            i = int(np.abs(d).max(axis=1).argmax())
+            return "atom %d: fractional coordinates %s in the file, %s in the structure" % (i, list(np.round(ff[i], 5)), list(np.round(fm[i], 5)))
+    elif "cart" in got:
+        if len(pos) and np.abs(pos - got["cart"]).max() > max(ptol, 1e-4):
+            return "Cartesian coordinates in the file differ from the structure's"
+    if got.get("charges") is not None:
+        q = [fl(r["q"]) for r in mem["atoms"]]
+        if any(abs(a - b) > 1e-5 for a, b in zip(q, got["charges"])):
+            return "charges in the file differ from the structure's"
+    # bonds (and, for CIF, angles / torsions) by atom
+    names = {"bond": "bond", "angle": "angle", "torsion": "dihedral"}
+    if sfx == ".cif":
+        labels = list(got["labels"])
+        dup = sorted({l for l in labels if labels.count(l) > 1})
+        has_terms = any(mem["terms"][k] for k in ("bond", "angle", "dihedral", "improper"))
+        if dup and has_terms:
+            return "atom site labels %s are used for several atoms: the bond / angle loops of the file are ambiguous" % dup[:6]
+        idx = {l: i for i, l in enumerate(labels)}
+    canon_t = lambda t: tuple(t) if tuple(t) <= tuple(reversed(t)) else tuple(reversed(t))
+    for kind, mk in names.items():
+        want = sorted(canon_t(t["a"]) for t in mem["terms"][mk]) if kind != "torsion" else sorted(
+            canon_t(t["a"]) for t in mem["terms"]["dihedral"] + mem["terms"]["improper"])
+        if sfx == ".lmpdat" and kind != "bond":
+            continue
+        have = got["terms"].get(kind, [])
+        try:
+            have = sorted(canon_t([idx[l] for l in t]) if sfx == ".cif" else canon_t(t) for t in have)
+        except KeyError as e:
+            return "a %s of the file names an atom label %s that no atom carries" % (kind, e)
+        if have != want:
+            extra = [t for t in have if t not in want][:4]
+            missing = [t for t in want if t not in have][:4]
+            return "%ss by atom differ: in the file but not in the structure %s, in the structure but not in the file %s" % (
+                kind, extra, missing)
+    return None
 
 
 def parsed(path):
@@ -1131,6 +1412,8 @@ def exec_err_kind(exc):
         return "reject:atom_groups"
     if isinstance(exc, AssertionError):
         return "reject:assert"
+    if type(exc).__name__ == "AtomsShouldNotBeDeletedTwice":
+        return "overlap"
     return err_kind(exc)
 
 
@@ -1414,10 +1697,10 @@ def run_case(world, o, seed):
             impl = {"calls": calls, "prefix": True}
         else:
             api_out = os.path.join(T, "api_out" + suffix(out_cli))
-            api_exc, api_matches = None, None
+            api_exc, api_matches, api_mem = None, None, None
             try:
                 with core.quiet():
-                    api_matches = api_pipeline(o, T, seed, api_out)
+                    api_matches, api_mem = api_pipeline(o, T, seed, api_out)
             except BaseException as e:  # noqa
                 api_exc = e
             if exc is not None or api_exc is not None:
@@ -1429,7 +1712,14 @@ def run_case(world, o, seed):
                     failures.append(("the command line and the API pipeline do not agree on whether the run succeeds",
                                      {"cli_exception": repr(exc), "api_exception": repr(api_exc), "cli_traceback": tb,
                                       "calls": calls}, "same outcome", []))
-                impl = {"err": err_kind(exc)} if exc is not None else {"calls": calls}
+                if exc is None:
+                    impl = {"calls": calls}
+                elif err_kind(exc) == "error:nocell":
+                    impl = {"err": "error:nocell"}               # a rejection the plan itself knows about
+                else:
+                    # a library call failed on the content (e.g. overlapping matches): the calls up to and including
+                    # the failing one are compared with the beginning of the plan
+                    impl = {"calls": calls, "raised": True}
             else:
                 impl = {"calls": calls}
                 bad = oracle_trace(o, calls, events, failed_early=False)
@@ -1453,6 +1743,16 @@ def run_case(world, o, seed):
                                           "api_atoms": None if b is None else len(b.get("atoms", b.get("symbols", [])))},
                                          "identical structures (1e-6)", []))
                     info["natoms_out"] = None if a is None else len(a.get("atoms", a.get("symbols", [])))
+                    # the written file, read back by an independent reader, against the structure the API route HOLDS
+                    # (two files from the same writer agree on a writer's mistakes)
+                    if api_mem is not None:
+                        bad = oracle_written(out_cli, api_mem)
+                        if bad:
+                            failures.append(("the file written by the command line does not describe the structure of the API "
+                                             "route (load, replicate, replace with the same options and seed): " + bad,
+                                             {"argv": [unsub(x, T) for x in argv(o, T)], "file_head": open(out_cli).read()[:1500]},
+                                             "same elements, charges, lattice, positions and bonds by atom", []))
+                        info["written_checked"] = suffix(out_cli)
                     # --pp, independent expectation on the WRITTEN file (LAMMPS data files carry labels and Pair Coeffs)
                     pev = [e for e in events if e["k"] == "assign_pair" and "elements" in e]
                     if o["pp"] and pev and a is not None and suffix(out_cli) == ".lmpdat" and "types" in a:
@@ -1559,6 +1859,7 @@ def generated_cases(ctx, nworlds):
             key = (row["in_fmt"], row["pat_fmt"], row["out_fmt"])
             if key not in worlds:
                 worlds[key] = gen_world(rng, "ortho", *key)
+                worlds[key]["with_bonds"] = key[0] in ("lmpdat", "cif") and rng.random() < 0.5
             w = worlds[key]
             out.append((w, opts_of_row(row, w), rng.randint(0, 10 ** 6), "pairwise"))
     return out
@@ -1575,6 +1876,24 @@ def extra_cases(ctx):
             row = {"atol": None, "p": None, "hints": rng.choice(["none", "012"]), "replicate": rng.choice([None, [2, 1, 1]]),
                    "mic": "small", "q": rng.random() < 0.5, "pp": rng.random() < 0.5, "mode": mode}
             out.append((w, opts_of_row(row, w), rng.randint(0, 10 ** 6), "triclinic"))
+    # monoclinic / general triclinic cells, bonds in the input, CIF and LAMMPS output: what the writers must get right
+    # (three different cell angles; after a replacement one element sits in two atom types; bond loops by label)
+    for kind, fmt, outf in (("mono", "cif", "cif"), ("tri", "lmpdat", "cif"), ("mono", "lmpdat", "lmpdat"), ("tri", "cif", "cif")):
+        w = gen_world(rng, kind, fmt, rng.choice(["cml", "lmpdat"]), outf)
+        w["with_bonds"] = True
+        for mode in ("replace", "none", "find"):
+            row = {"atol": None, "p": rng.choice([None, "0.5"]), "hints": "none", "replicate": rng.choice([None, [2, 1, 1], [1, 1, 2]]),
+                   "mic": None, "q": rng.random() < 0.5, "pp": False, "mode": mode}
+            out.append((w, opts_of_row(row, w), rng.randint(0, 10 ** 6), "lattice+bonds"))
+    # a LAMMPS input that types one element in two ways, bonds present, written as CIF (and as LAMMPS data)
+    for kind, outf in (("ortho", "cif"), ("tri", "cif"), ("ortho", "lmpdat")):
+        w = gen_world(rng, kind, "lmpdat", "cml", outf)
+        w["with_bonds"] = True
+        w["split_types"] = True
+        for mode in ("none", "replace"):
+            row = {"atol": None, "p": None, "hints": "none", "replicate": rng.choice([None, [2, 1, 1]]), "mic": None,
+                   "q": False, "pp": False, "mode": mode}
+            out.append((w, opts_of_row(row, w), rng.randint(0, 10 ** 6), "typed-input"))
     # ASE on the way in (xyz + --extract-uc) and out (xyz), dump file override
     w = gen_world(rng, "ortho", "xyz", "cml", "lmpdat")
     w["dump"] = core.q(Fraction(1, 4))
@@ -1770,7 +2089,11 @@ def _evaluate(ctx, cases, with_model, nparse=0):
     models = ctx.lean.run([b[0] for b in batch])
     for (op, kind, inp, impl), model in zip(batch, models):
         if kind == "plan":
-            if impl.get("prefix"):
+            if impl.get("raised"):
+                mc = model.get("calls")
+                ctx.compare("cli_plan_until_failure", inp, {"calls": impl["calls"]},
+                            {"calls": mc[:len(impl["calls"])]} if mc is not None else model)
+            elif impl.get("prefix"):
                 # known finding: the run stops at the framework-element step; compare what happened before it
                 mc = model.get("calls", [])
                 cut = next((i for i, c in enumerate(mc) if c["f"] == "setFrameworkElement"), len(mc))
